@@ -92,10 +92,17 @@ func Check(dir, name, script string, timeoutS int, wantModel bool, seed int) Ans
 	if timeoutS < quickT {
 		quickT = timeoutS
 	}
-	st, out, el := runOne(context.Background(), Solvers[0], file, quickT)
-	detail := fmt.Sprintf("%s:%s(%.2fs)", Solvers[0].Name, st, el)
+	hardFP := strings.Contains(script, "fp.mul") || strings.Contains(script, "fp.div") || strings.Contains(script, "fp.sqrt")
+	var st Status = Unknown
+	var out string
+	var el float64
+	detail := ""
+	if !hardFP {
+		st, out, el = runOne(context.Background(), Solvers[0], file, quickT)
+		detail = fmt.Sprintf("%s:%s(%.2fs)", Solvers[0].Name, st, el)
+	}
 	ans := Answer{Status: st, Solver: Solvers[0].Name}
-	if st == Unknown && timeoutS > quickT {
+	if st == Unknown && (timeoutS > quickT || hardFP) {
 		ctx, cancel := context.WithCancel(context.Background())
 		type r struct {
 			s   Solver
@@ -116,6 +123,9 @@ func Check(dir, name, script string, timeoutS int, wantModel bool, seed int) Ans
 		go func() { wg.Wait(); close(ch) }()
 		for res := range ch {
 			detail += fmt.Sprintf(" %s:%s(%.2fs)", res.s.Name, res.st, res.el)
+			if res.st == Unknown && strings.Contains(res.out, "error") {
+				detail += "[" + res.out + "]"
+			}
 			if res.st != Unknown && ans.Status == Unknown {
 				ans.Status = res.st
 				ans.Solver = res.s.Name
